@@ -256,7 +256,12 @@ def end_to_end(ck: Check, n_cases: int):
         ck.case(("e2e", dim, tuple(times), tuple(f.data.tobytes() for f in fields), tok(settings)), nontrivial=nfr >= 2)
         ck.count("e2e_cases")
         tmp = tempfile.mkdtemp(prefix="verif-c14-")
-        path = os.path.join(tmp, "tracker.hdf5")
+        # (the output file name is reused from case to case, as a user with one fixed output name would: the file left by an
+        # earlier - possibly longer - run is written over; every third case starts from a fresh file)
+        path = os.path.join(tempfile.gettempdir(), f"verif-c14-tracker-{os.getpid()}.hdf5")
+        if ck.stats.get("e2e_cases", 0) % 3 == 0 and os.path.exists(path):
+            os.remove(path)
+        ck.count("e2e_output_file." + ("written_over" if os.path.exists(path) else "fresh"))
         tr = DropletTracker(1, filename=path, **settings)
         err_on = err_off = None
         try:
@@ -283,8 +288,8 @@ def end_to_end(ck: Check, n_cases: int):
         tr.finalize()
         back = EmulsionTimeCourse.from_file(path, progress=False)
         if etc_key(back) != etc_key(tr.data):
-            ck.fail("file written by finalize() does not read back equal", {**sig, "check": "file_roundtrip"}, case)
-        os.remove(path)
+            ck.fail("file written by finalize() does not read back equal" + (f" ({len(back)} frames read, {len(tr.data)} recorded)" if len(back) != len(tr.data) else ""),
+                    {**sig, "check": "file_roundtrip"}, case)
         # length-scale tracker on the same frames, real analysis
         method = rng.choice(["structure_factor_mean", "structure_factor_maximum", "droplet_detection"])
         jpath = os.path.join(tmp, "ls.json")
@@ -316,6 +321,9 @@ def end_to_end(ck: Check, n_cases: int):
         os.rmdir(tmp)
         if len(ck.samples) < 3 and nfr >= 3:
             ck.sample(case)
+    leftover = os.path.join(tempfile.gettempdir(), f"verif-c14-tracker-{os.getpid()}.hdf5")
+    if os.path.exists(leftover):
+        os.remove(leftover)
 
 
 def solver_runs(ck: Check, n: int):
